@@ -30,6 +30,15 @@ Theorem C14_receives : forall c0 h0 lv evs k w b,
              /\ In (EDeliver (w_id w) b') (evs ++ [EDeliver (w_id w) b]).
 Proof. exact go_receives. Qed.
 
+(* answers are matched to pending requests by id alone, so own_reply means "the answer to MY
+   request" only if no two requests can carry one id: every request written along a history
+   (ESend: sync callers, one-way senders, and — obligation c_ids_plain of C14_source_cfg_good:
+   EVERY send site that writes an answerable frame, e.g. OnOpen's RegisterRM re-announcements —
+   draws from the client's one generator) gets an id of its own (fewer than 2^32 events) *)
+Theorem C14_request_ids_distinct : forall c0 h0 lv evs,
+  (N.of_nat (length evs) < two32)%N -> NoDup (drawn go_futures_cfg (init c0 h0 lv) evs).
+Proof. exact go_request_ids_distinct. Qed.
+
 (* a caller whose reply never comes is waiting or ends with an error, never with a body;
    when its timer fires it returns the timeout error; outcomes never change afterwards *)
 Theorem C14_timeout : forall c0 h0 lv evs k w,
@@ -96,6 +105,13 @@ Proof. exact pinned_leaks. Qed.
 Example C14_store_after_signal_nonvacuous :
   stat_of 1 (run store_after_cfg (init 0 0 true) [ESend 1 false; EDeliver 1 7; EWake 1; ERemove 1]) = Some (DoneErr 4).
 Proof. exact store_after_returns_nil. Qed.
+(* ... and a request written under an id of the listener's second generator (as heartbeats are)
+   can share its id with a pending caller, who is then handed that request's answer *)
+Example C14_second_generator_nonvacuous :
+  let evs := [ESend 1 false; EHeartbeat false; EDeliver (id_of 8) 99; EWake 1] in
+  stat_of 1 (run fixed_cfg (init 7 7 true) evs) = Some (DoneOk 99)
+  /\ id_of (7 + 1) = id_of (7 + 1).
+Proof. exact second_generator_confuses. Qed.
 Example C14_pinned_steals_nonvacuous :
   let s := run pinned_cfg (init 0 0 true) [ESend 1 false; EWrite 1 false; EDeliver 1 7; EWake 1] in
   stat_of 1 s = Some Waiting /\ parked s = 1%nat.
